@@ -544,3 +544,10 @@ FOLD_MODELS.update({
     "core::slice::ascii::eq_ignore_ascii_case": m_bytes_eq_nocase,
     "core::num::eq_ignore_ascii_case": m_u8_eq_nocase,
 })
+
+
+def outcome_inner(r):
+    """error codes nested anywhere in the returned value (e.g. Some(Err(code)) of an iterator)"""
+    if r.outcome != "return":
+        return r.outcome
+    return ",".join(sorted(err_codes(r.retval)))
